@@ -129,14 +129,14 @@ PROPS = {
             "stages": [TRANS_STAGE, SUB_STAGES[1], HUB_STAGE, RACE_STAGE],
             "rule": TRANS_RULE.strip() + " schedules: " + SUB_RULE + " hub-histories: " + HUB_RULE + " race-stress: unsteered concurrent publishers and subscribers on both transports under the Go race detector (supporting search).",
             "trusted": HUB_TRUST + ["yieldify rewriter + cooperative scheduler (harness/cmd/yieldify, harness/overlay/zz_vsched.go.txt) for the schedule-steered stage"],
-            "assumptions": ["update ids are distinct (exactly-once is stated for distinct ids)", "theorems about 'exactly the matching updates': persistent transport, retention off; "
-                            "for the local transport and for bounded retention the same clauses are judged on the observed outcomes only"]},
+            "assumptions": ["published update ids are distinct and below 2^40 (the model's range for subscription-event ids); exactly-once is stated for distinct ids",
+                            "theorems about 'exactly the matching updates': retention off; for bounded retention the same clauses are judged on the observed outcomes only"]},
     "C07": {"binaries": ["verifh", "verifs"],
             "stages": [TRANS_STAGE, SUB_STAGES[1], HUB_STAGE, {"kind": "cases", "name": "subscriber-sequential", "driver": "SUBSEQ", "n": {"quick": 60, "thorough": 600}}],
             "rule": TRANS_RULE.strip() + " schedules: " + SUB_RULE + " hub-histories: " + HUB_RULE + " subscriber-sequential: replays of 999/1000/1001/1500 updates through a real LocalSubscriber (buffer 1000): "
                     "larger than the buffer means cut off with a gap-free prefix.",
             "trusted": HUB_TRUST + ["yieldify rewriter + cooperative scheduler for the schedule-steered stage", "bbolt cursor order and snapshot isolation of the read transaction"],
-            "assumptions": ["theorems: persistent transport, retention off (with bounded retention the replay starts at the oldest retained entry: judged on the observed outcomes)",
+            "assumptions": ["theorems: retention off (with bounded retention the replay starts at the oldest retained entry: judged on the observed outcomes)",
                             "a requested id that is stored only after the registration is treated as unknown"]},
     "C09": {"binaries": ["verifh", "verifs"],
             "stages": [{"kind": "cases", "name": "kill-points", "driver": "CRASH", "binary": "verifs", "n": {"quick": 1, "thorough": 1}}, HUB_STAGE],
